@@ -2,7 +2,7 @@
 """tools/save_seed.py <ID> <seed-name> <property> "<what it needs to manifest>" "<demo command>" -- copy a confirmed seeded change from /tmp/wt-<ID> to /verif/seeded/<seed-name>/"""
 import json, os, shutil, subprocess, sys, glob
 wid, name, prop, needs, democmd = sys.argv[1:6]
-wt = "/tmp/wt-" + wid
+wt = os.environ.get("WTPREFIX", "/tmp/wt-") + wid
 dst = os.path.join(os.path.dirname(os.path.dirname(os.path.abspath(__file__))), "seeded", name)
 os.makedirs(dst, exist_ok=True)
 diff = subprocess.run(["git", "-C", wt, "diff", "--", "fast-tlsh/src"], capture_output=True, text=True).stdout
@@ -15,7 +15,7 @@ if os.path.exists(wt + "/META.md"):
 meta = {"property": prop, "breaks": open(wt + "/META.md").read().split("\n")[0:3] if os.path.exists(wt + "/META.md") else "",
         "needs_to_manifest": needs, "demo": [os.path.basename(d) for d in demos], "demo_cmd": democmd,
         "confirmed": {"existing_suite_with_change": "pass (cargo test --workspace --offline, demo moved aside)",
-                      "demo_with_change": "fails", "demo_without_change": "passes", "how": "tools/confirm_seed.sh " + wid},
+                      "demo_with_change": "fails", "demo_without_change": "passes", "how": "tools/confirm_seed.sh " + wid + " (worktree " + wt + ")"},
         "files_touched": [l.split()[-1][2:] for l in diff.split("\n") if l.startswith("+++ ")],
         "author": "independent sub-agent given only the property text and a scratch worktree",
         "caught_by": []}
